@@ -127,6 +127,9 @@ def run(ctx):
             cases.append({"id": len(cases) + 1, "input": p["input"], "opts": p["opts"], "reads": rnd.choice([[40], [4096], [1 << 20], [7, 300]]),
                           "failPos": pos, "probe": p["id"], "failBlocks": (0 if pos < 0 else pos // B)})
         cases.append({"id": len(cases) + 1, "input": p["input"], "opts": p["opts"], "reads": [4096], "probe": p["id"], "reapply": True})
+        # reuse of the encoder instance: an earlier stream with another block size, then Reset + Apply
+        cases.append({"id": len(cases) + 1, "input": p["input"], "opts": p["opts"], "reads": rnd.choice([[4096], [1 << 20], [7, 300]]), "probe": p["id"],
+                      "preCode": rnd.choice([5, 6, 7]), "preLen": rnd.choice([0, 10, 300000])})
     recs, faults = fl.shard_run(b, "cr-run", cases, d, "run")
     if faults:
         raise vlib.MachineryFault("cr-run failed: %s" % faults[0]["stderr"][-800:])
